@@ -46,7 +46,10 @@ def gen(rng, tier):
            'cb_pause': rng.random() < 0.5,
            # callbacks that use the server again: they emit with another
            # callback to the same client (chained acknowledgements)
-           'chain': rng.random() < 0.3}
+           'chain': rng.random() < 0.3,
+           # the server uses a message-queue client manager (one host on the
+           # bus); emits may then use the local-only form ignore_queue=True
+           'pubsub': rng.random() < 0.3}
     ops = []
     for p in range(npeers):
         ops.append(['open', p])
@@ -69,6 +72,8 @@ def gen(rng, tier):
             ik = rng.random()
             if ik < 0.45:
                 idspec = ['right']
+            elif ik < 0.50:
+                idspec = ['prev']      # the id just below an outstanding one
             elif ik < 0.55:
                 idspec = ['used']
             elif ik < 0.75:
@@ -110,8 +115,26 @@ def run(case):
 
 def _run(case, cfg, w):
     v = V(PROP)
+    mkw = {}
+    if cfg.get('pubsub'):
+        from sim.bus import SimBus, SimPubSubManager, AsyncSimPubSubManager
+        bus = SimBus(w, lags=(0.0,))
+        mkw['manager'] = (AsyncSimPubSubManager if w.mode == 'async'
+                          else SimPubSubManager)(bus, 's')
     srv = w.add_server('s', async_handlers=True,
-                       namespaces=list(cfg['nss']))
+                       namespaces=list(cfg['nss']), **mkw)
+
+    iq_n = [0]
+
+    def iq():
+        if not cfg.get('pubsub'):
+            return {}
+        iq_n[0] += 1
+        if cfg.get('raise_by_content'):     # (the differential check C14)
+            hit = derive(case['seed'], 'igq', iq_n[0]) % 2 == 0
+        else:
+            hit = w.choices.chance('app', 1, 2, 'igq')
+        return {'ignore_queue': True} if hit else {}
     sc = Scene(w)
     outstanding = {}     # sid -> {id: tag}
     used = {}            # sid -> [ids already acknowledged]
@@ -121,7 +144,7 @@ def _run(case, cfg, w):
     dead_tags = set()    # callbacks outstanding at disconnect: never again
     calls = {}           # tag -> dict(op, t0, timeout, sid)
     nontrivial = False
-    stats = {'ack_right': 0, 'ack_used': 0, 'ack_never': 0,
+    stats = {'ack_right': 0, 'ack_used': 0, 'ack_never': 0, 'ack_prev': 0,
              'ack_other_peer': 0, 'ack_other_ns': 0, 'ack_id0': 0,
              'call_timeout_raced': 0}
 
@@ -137,7 +160,7 @@ def _run(case, cfg, w):
         if t2 in issued:
             return None
         issued[t2] = {'sid': info['sid'], 'kind': 'emit', 'p': info['p'],
-                      'ns': info['ns']}
+                      'ns': info['ns'], 'iq': False}
         w.rec.count('app.chained_callback')
         return srv.emit('q', t2, to=info['sid'], namespace=info['ns'],
                         callback=make_cb(t2))
@@ -225,10 +248,12 @@ def _run(case, cfg, w):
             sid = sc.sid(p, ns)
             if not sid:
                 continue
-            issued[tag] = {'sid': sid, 'kind': 'emit', 'p': p, 'ns': ns}
+            kwq = iq()
+            issued[tag] = {'sid': sid, 'kind': 'emit', 'p': p, 'ns': ns,
+                           'iq': bool(kwq)}
             mark = sc.mark()
             h = w.api('s', 'emit', 'q', tag, to=sid, namespace=ns,
-                      callback=make_cb(tag))
+                      callback=make_cb(tag), **kwq)
             w.settle()
             if h.exc is not None:
                 v.add('emit_raised', '%s raised %r' % (where, h.exc),
@@ -239,10 +264,12 @@ def _run(case, cfg, w):
             sid = sc.sid(p, ns)
             if not sid:
                 continue
-            issued[tag] = {'sid': sid, 'kind': 'call', 'p': p, 'ns': ns}
+            kwq = iq()
+            issued[tag] = {'sid': sid, 'kind': 'call', 'p': p, 'ns': ns,
+                           'iq': bool(kwq)}
             mark = sc.mark()
             h = w.api('s', 'call', 'q', tag, to=sid, namespace=ns,
-                      timeout=timeout)
+                      timeout=timeout, **kwq)
             calls[tag] = {'op': h, 't0': w.now(), 'timeout': timeout,
                           'sid': sid, 'acked_at': None, 'args': None}
             w.settle(horizon=0.05)
@@ -260,6 +287,12 @@ def _run(case, cfg, w):
                 if not cands:
                     continue
                 id_ = cands[w.choices.draw('app', len(cands), 'which')]
+            elif kind == 'prev':
+                cands = sorted(i - 1 for i in outstanding.get(sid, {})
+                               if isinstance(i, int) and i > 0) if sid else []
+                if not cands:
+                    continue
+                id_ = cands[-1]
             elif kind == 'used':
                 cands = used.get(sid, []) if sid else []
                 cands = [c for c in cands
@@ -287,6 +320,17 @@ def _run(case, cfg, w):
             if cfg.get('malformed_acks') and pi % 5 == 0:
                 payload = None        # an ACK frame without any payload
             match = sid is not None and id_ in outstanding.get(sid, {})
+            if cfg.get('pubsub') and not match and sid is not None and any(
+                    isinstance(wid, int) and wid - 1 == id_ and
+                    not issued[t_]['iq']
+                    for wid, t_ in outstanding.get(sid, {}).items()):
+                # a message-queue manager keeps the application's callback of
+                # a queue-routed emit under the id just below the one it
+                # puts on the wire, in the same per-client table: an ACK
+                # bearing that id is not "an id never issued" to the manager
+                # (observed, not claimed: DESIGN B.2).  Only the local-only
+                # form (ignore_queue=True) has no such entry.
+                continue
             if kind != 'right' or id_ == 0:
                 nontrivial = True
             stats['ack_' + kind] += 1
